@@ -127,9 +127,13 @@ class ParserState:
             if node.is_cont_node() and branch_taken[-1]:
                 return Visit.NEXT_SIBLING
 
+            # A file opened through a symbolic link is one physical file,
+            # but the files it includes with quotes are looked for beside
+            # the name it was opened by, as a compiler does.
             active = node.evaluate_for_platform(
                 platform=platform,
                 filename=self._get_realpath(filename),
+                directory=os.path.dirname(filename),
                 state=self,
             )
 
